@@ -498,6 +498,9 @@ impl Runner {
         let n0 = rng.range(5, 40) as usize;
         st.rows = gen.fresh_rows(rng, &st.cols, n0);
         let per_file = rng.range(3, 20) as usize;
+        if std::env::var("VERIF_DEBUG_FRAGS").is_ok() {
+            eprintln!("step create {} rows per_file {} knobs {:?}", st.rows.len(), per_file, res.knobs);
+        }
         let ds = ctx.create(&st.cols, &st.rows, per_file).await.map_err(|e| format!("create failed: {}", e))?;
         Ok((w, ctx, ds, st, gen))
     }
@@ -523,6 +526,9 @@ impl Runner {
     /// Execute one op on lance and model; record outcome. Returns true if a new version was made.
     pub async fn do_op(&mut self, op: &Op) -> bool {
         let before = self.ds.version().version;
+        if std::env::var("VERIF_DEBUG_FRAGS").is_ok() {
+            eprintln!("begin step {} {}", self.step, op.brief());
+        }
         self.note_history(op);
         let mut expect = self.st.clone();
         let model_res = model_apply(&mut expect, op, &self.history);
@@ -821,7 +827,10 @@ impl Runner {
                             names.dedup();
                             let mut e: Vec<String> = exp.indices.iter().map(|i| i.name.clone()).collect();
                             e.sort();
-                            if names != e {
+                            // lance drops a vector index whose fragments are all gone (retain_relevant_indices)
+                            let optional: Vec<String> = exp.indices.iter().filter(|i| i.kind.starts_with("IvfFlat")).map(|i| i.name.clone()).collect();
+                            let ok = names.iter().all(|n| e.contains(n)) && e.iter().all(|n| names.contains(n) || optional.contains(n));
+                            if !ok {
                                 self.res.violate("C06", "O-timetravel", "old-version-indices", self.step, format!("version {} indices {:?} expected {:?}", v, names, e));
                             }
                         }
